@@ -1,6 +1,8 @@
 package main
 
 import (
+	"github.com/olive-io/bpmn/v2/pkg/tracing"
+	"strings"
 	"fmt"
 	"math/rand"
 	"time"
@@ -125,6 +127,70 @@ func runC12(env *Env) {
 		}
 	}
 	twoTokensOneSubProcess(env, rep, "C12-inline", 12)
+	// a host that takes its time per trace, and content that ends in a burst of traces (24 pass-through gateways behind
+	// the task, two levels of sub-process): what happens inside is reported before the parent's token goes on — every
+	// inner trace and the sub-processes' landmarks precede the parent's leave and the instance's cease-flow trace
+	for rnd := 0; rnd < 3 && !rep.Saturated(); rnd++ {
+		cs := fmt.Sprintf("start -> S1[S2[A -> 24 pass-through gateways -> end]] -> end, host taking 300 us per trace (round %d)", rnd)
+		env.Current(cs)
+		p := &Prog{}
+		p.Node("start", "start")
+		s1 := p.Node("sub", "S1")
+		p.Node("end", "end")
+		p.Flow("start", "S1", "")
+		p.Flow("S1", "end", "")
+		s1.Sub = &Prog{nflow: 500}
+		s1.Sub.Node("start", "s1s")
+		s2 := s1.Sub.Node("sub", "S2")
+		s1.Sub.Node("end", "s1e")
+		s1.Sub.Flow("s1s", "S2", "")
+		s1.Sub.Flow("S2", "s1e", "")
+		s2.Sub = &Prog{nflow: 600}
+		s2.Sub.Node("start", "s2s")
+		s2.Sub.Node("task", "A")
+		s2.Sub.Flow("s2s", "A", "")
+		prev := "A"
+		for i := 0; i < 24; i++ {
+			g := fmt.Sprintf("P%d", i)
+			s2.Sub.Node("xor", g)
+			s2.Sub.Flow(prev, g, "")
+			prev = g
+		}
+		s2.Sub.Node("end", "s2e")
+		s2.Sub.Flow(prev, "s2e", "")
+		defs, err := ParseDefs(p.XML(""))
+		must(err)
+		in, err := StartInst(defs, InstOpt{Buf: 4, Raw: func(tracing.ITrace) { time.Sleep(300 * time.Microsecond) }})
+		must(err)
+		rep.Evaluations++
+		rep.Nontrivial++
+		rep.Count("slow_host")
+		if !in.Answer("A", tmoStep) || !in.WaitCease(2*tmoStep) {
+			rep.Violate("C12-inline", cs, "the instance did not run to completion; log: "+logString(in.Log()))
+			in.Close()
+			continue
+		}
+		time.Sleep(30 * time.Millisecond)
+		l := in.Log()
+		lastInner, leaveS1, cease, marks := -1, -1, -1, 0
+		for i, e := range l {
+			switch {
+			case e.K == "visit" && (strings.HasPrefix(e.N, "P") || e.N == "s2e" || e.N == "s1e"):
+				lastInner = i
+			case e.K == "other" && strings.Contains(e.X, "ProcessLandMarkTrace"):
+				lastInner = i
+				marks++
+			case e.K == "leave" && e.N == "S1" && leaveS1 < 0:
+				leaveS1 = i
+			case e.K == "cease" && cease < 0:
+				cease = i
+			}
+		}
+		if marks != 2 || leaveS1 < 0 || cease < 0 || lastInner > leaveS1 || lastInner > cease {
+			rep.Violate("C12-inline", cs, fmt.Sprintf("landmarks %d (expected 2); the last trace from inside the sub-processes is trace %d, the parent's token leaves S1 at trace %d, cease-flow is trace %d: the parent went on before the content had reported; log: %s", marks, lastInner, leaveS1, cease, logString(l)))
+		}
+		in.Close()
+	}
 	env.WriteCases(rep, "", "Corr.C12corr", blkCaseType, items, "c12_mismatches")
 	env.WriteReport(rep)
 }
